@@ -404,6 +404,68 @@ func checkAdminPredicates(c *km.Ctx, s *km.Sem) {
 	if nNew == 0 {
 		r.AnchorLost("R-C08-2", "construction of the admin cache")
 	}
+	// the cache is keyed by the user name exactly as given: a folded or otherwise transformed key makes two
+	// different accounts (names differing in case when normalisation is off) share one verdict
+	{
+		nKey := 0
+		cachePkg := km.ModPath + "/keymasterd/admincache"
+		var keyIsGivenName func(fn *ssa.Function, v ssa.Value, depth int) bool
+		keyIsGivenName = func(fn *ssa.Function, v ssa.Value, depth int) bool {
+			p, ok := km.CellOrigin(km.Unwrap(v)).(*ssa.Parameter)
+			if !ok || depth > 3 {
+				return false
+			}
+			if fn.Object() != nil && fn.Object().Exported() {
+				return true // the exported entry point's own parameter
+			}
+			idx := -1
+			for i, q := range fn.Params {
+				if q == p {
+					idx = i
+				}
+			}
+			sites := c.G.Callers[fn]
+			if idx < 0 || len(sites) == 0 {
+				return false
+			}
+			for _, cs := range sites {
+				ci, isCI := cs.Instr.(ssa.CallInstruction)
+				if !isCI {
+					return false
+				}
+				a := km.CallArgs(ci.Common())
+				if idx >= len(a) || !keyIsGivenName(cs.Caller, a[idx], depth+1) {
+					return false
+				}
+			}
+			return true
+		}
+		for _, fn := range c.P.AllFuncs {
+			if fn.Pkg == nil || fn.Pkg.Pkg.Path() != cachePkg {
+				continue
+			}
+			km.Instrs(fn, func(in ssa.Instruction) {
+				var m, key ssa.Value
+				switch x := in.(type) {
+				case *ssa.Lookup:
+					m, key = x.X, x.Index
+				case *ssa.MapUpdate:
+					m, key = x.Map, x.Key
+				default:
+					return
+				}
+				if !mentionsField(m, "data") {
+					return
+				}
+				nKey++
+				ok := keyIsGivenName(fn, key, 0)
+				r.Add("R-C08-2", km.FuncName(fn), "admin cache key", posOf(c, in), "the entry is stored and looked up under the user name exactly as the caller gave it", km.ValStr(key), ok)
+			})
+		}
+		if nKey < 2 {
+			r.AnchorLost("R-C08-2", sprintf("reads / writes of the admin cache map (found %d)", nKey))
+		}
+	}
 	// the validity test of the cache: whatever function Get's second result comes from
 	if get := c.MustFunc("R-C08-2", "keymasterd/admincache", "(*Cache).Get"); get != nil {
 		var vcall *ssa.Call
